@@ -7,7 +7,8 @@ COQ = os.path.join(ROOT, "coq")
 HARNESS = os.path.join(ROOT, "harness")
 BUILD = os.path.join(ROOT, ".build")
 TARGET = os.path.join(BUILD, "target")
-REPO = "/repo"
+_sib = os.path.join(os.path.dirname(ROOT), "repo")
+REPO = os.environ.get("TEVEC_REPO") or (_sib if ROOT != "/verif" and os.path.isdir(_sib) else "/repo")
 
 sys.path.insert(0, os.path.join(ROOT, "tools"))
 import props as PROPS   # per-property configuration
@@ -278,14 +279,16 @@ def strip_known(model):
 # --------------------------------------------------------------------------- known findings
 
 def load_known():
-    path = os.path.join(ROOT, "KNOWN_FINDINGS")
+    import glob
     res = collections.defaultdict(dict)
-    if not os.path.exists(path): return res
-    for line in open(path):
-        line = line.strip()
-        m = re.match(r"finding:\s+property=(\S+)\s+class=(\d+)\s+(.*)", line)
-        if m:
-            res[m.group(1)][int(m.group(2))] = m.group(3)
+    paths = [os.path.join(ROOT, "KNOWN_FINDINGS")] + sorted(glob.glob(os.path.join(ROOT, "KNOWN_FINDINGS.d", "*")))
+    for path in paths:
+        if not os.path.isfile(path): continue
+        for line in open(path):
+            line = line.strip()
+            m = re.match(r"finding:\s+property=(\S+)\s+class=(\d+)\s+(.*)", line)
+            if m:
+                res[m.group(1)][int(m.group(2))] = m.group(3)
     return res
 
 # --------------------------------------------------------------------------- evidence / replay
@@ -390,7 +393,10 @@ def check(prop, tier, seed, only=None, only_bin=None):
         if c["term"] not in model: continue
         mflat, kclasses = strip_known(model[c["term"]])
         compared += 1
-        why = compare(c["cmp"], c["impl"], mflat)
+        if prop in PROPS.COMPARATORS and c["cmp"].startswith("custom"):
+            why = PROPS.COMPARATORS[prop](c["cmp"], cells_of(c["impl"]), cells_of(mflat))
+        else:
+            why = compare(c["cmp"], c["impl"], mflat)
         if "nt=0" not in c["tags"].split():
             nontrivial.add(hashlib.sha1((c["desc"]).encode()).hexdigest())
         if why is None: continue
